@@ -100,6 +100,7 @@ AlphaAll ==
      EvFloat("f64:3ff8000000000000"), EvFloat("f64:8000000000000000"), EvFloat("f64:7ff0000000000000"),
      EvFloatNan, EvSp("OnFloat", "float", "snan"),
      EvK("OnBigFloat", "float", "bf:0x.cp+1:53"), EvSp("OnBigFloat", "float", "nil"),
+     [EvK("OnBigFloat", "float", "bf:0x.cp+1:53") EXCEPT !.pok = FALSE],
      EvDFloat("df:15:-1"), EvDFloat("df:-0"), EvSp("OnDecimalFloat", "float", "qnan"),
      EvSp("OnDecimalFloat", "float", "snan"),
      EvK("OnBigDecimalFloat", "float", "bdf:15:-1"), EvK("OnBigDecimalFloat", "float", "bdf:-0:0"),
